@@ -109,20 +109,12 @@ pub fn handle_eval_with_db(storage: &Arc<StorageEngine>, parts: &[RespFrame], db
                             let end_pos = error_content.find('\n').unwrap_or(error_content.len());
                             let clean_error = error_content[..end_pos].trim();
                             
-                            if clean_error.starts_with("ERR ") {
-                                clean_error.to_string()
-                            } else {
-                                format!("ERR {}", clean_error)
-                            }
+                            crate::storage::lua_engine::LuaEngine::with_error_class(clean_error.to_string())
                         } else {
-                            if msg.starts_with("ERR ") { msg.clone() } else { format!("ERR {}", msg) }
+                            crate::storage::lua_engine::LuaEngine::with_error_class(msg.clone())
                         }
                     } else {
-                        if msg.starts_with("ERR ") {
-                            msg.clone()
-                        } else {
-                            format!("ERR {}", msg)
-                        }
+                        crate::storage::lua_engine::LuaEngine::with_error_class(msg.clone())
                     }
                 }
                 _ => {
